@@ -106,6 +106,58 @@ def random_spec(seed, i, percolator=False):
     return {"opt": opt, "files": files}
 
 
+def multi_spec(seed, i, percolator_at=None):
+    """2..3 files for ONE read_pepxml call whose search-score sets differ between the files (uniform inside a file):
+    at least one score name is reported by only some of the files.  percolator_at in {first, middle, last} makes the
+    file at that list position a Percolator product (1..3 of the Percolator score names next to its own scores);
+    "middle" forces 3 files."""
+    rnd = random.Random("c20multi-%d-%d-%s" % (seed, i, percolator_at))
+    opt = {k: rnd.random() < 0.5 for k in ("ns", "descr", "nmc", "ntt", "nmp", "modpep", "extras", "split")}
+    n_files = 3 if percolator_at == "middle" else rnd.choice([2, 2, 3])
+    pool = rnd.sample(SCORE_NAMES, rnd.randint(1, 5))
+    kind = {n: rnd.choice(SCORE_KINDS) for n in pool}
+    sets = [[n for n in pool if rnd.random() < 0.6] for _f in range(n_files)]
+    if percolator_at is None and all(set(s) == set(sets[0]) for s in sets):
+        # make them differ: one score of the pool reported by exactly one file
+        n = rnd.choice(pool)
+        only = rnd.randrange(n_files)
+        sets = [[m for m in s if m != n] + ([n] if f == only else []) for f, s in enumerate(sets)]
+    for s in sets:
+        rnd.shuffle(s)
+    perc_file = {None: None, "first": 0, "middle": 1, "last": n_files - 1}[percolator_at]
+    uid = itertools.count()
+    files = []
+    run_no = 0
+    for f in range(n_files):
+        scores = [(n, kind[n]) for n in sets[f]]
+        if f == perc_file:
+            for n in rnd.sample(PERCOLATOR_NAMES, rnd.randint(1, 3)):
+                scores.insert(rnd.randint(0, len(scores)), (n, "pos"))
+        runs = []
+        for _r in range(rnd.choice([1, 1, 2])):
+            run_no += 1
+            ext = rnd.choice([".mzML", ".mzXML", ".raw"])
+            run = {"file": "run%d_%s%s" % (run_no, rnd.choice("abc"), ext), "ext": ext,
+                   "base_has_ext": rnd.random() < 0.3, "spectra": []}
+            scans = rnd.sample(range(1, 5000), 3)
+            for s in range(rnd.randint(1, 3)):
+                sp = {"scan": scans[s], "z": rnd.randint(1, 5),
+                      "rt": rnd.choice(["%.3f" % rnd.uniform(0, 7000), str(rnd.randint(0, 7000))]),
+                      "mass": "%.4f" % rnd.uniform(400, 4000), "hits": []}
+                for _h in range(rnd.randint(1, 3)):
+                    sp["hits"].append(_hit(rnd, next(uid), opt, scores))
+                run["spectra"].append(sp)
+            runs.append(run)
+        files.append(runs)
+    return {"opt": opt, "files": files}
+
+
+def _file_score_sets(spec):
+    """per file: the set of search-score names its hits report"""
+    return [{n for run in runs for sp in run["spectra"] for h in sp["hits"] for n in h["scores"]}
+            for runs in spec["files"]]
+
+
 def grid_specs():
     """Exhaustive single-hit documents: every target/decoy pattern over the primary and 0..2 alternative proteins
     x every set of 0..3 modified positions of a 4-residue peptide."""
@@ -342,20 +394,33 @@ def check_doc(spec, d, tag="doc"):
         if seen.get(key, 0) != 1:
             bad.append(("psm-count", "search hit with calc mass %r became %d PSMs" % (key, seen.get(key, 0))))
     # search scores: numeric columns, the value of a row derived from THAT hit's score (rank-preserving)
-    names = list(exp[0]["scores"]) if exp else []
+    # A score that only some hits report (files with differing score sets) must still be a column; the statement
+    # says nothing about its value in the rows of hits that do not report it, so those rows are not looked at.
+    names = []
+    for r in exp:
+        names += [n for n in r["scores"] if n not in names]
     for n in names:
+        partial = any(n not in r["scores"] for r in exp)
         if n not in rows.columns:
-            bad.append(("score-missing", "search score %r is not a column" % n))
+            if partial:
+                bad.append(("score-of-some-files-missing", "search score %r, reported by %d of the %d hits, is not "
+                            "a column" % (n, sum(n in r["scores"] for r in exp), len(exp))))
+            else:
+                bad.append(("score-missing", "search score %r is not a column" % n))
             continue
         col = rows[n]
         if not (np.issubdtype(col.dtype, np.number) or col.dtype == bool):
             bad.append(("score-not-numeric", "search score column %r has dtype %s" % (n, col.dtype)))
             continue
         vals = np.asarray(col, dtype=float)
-        if not np.isfinite(vals).all():
-            bad.append(("score-not-numeric", "search score column %r has non-finite values %r" % (n, vals.tolist())))
+        without = [r["_row"] for r in exp if "_row" in r and n not in r["scores"]]
+        own = np.delete(vals, without) if without else vals
+        if not np.isfinite(own).all():
+            bad.append(("score-not-numeric", "search score column %r has non-finite values %r%s"
+                        % (n, own.tolist(), " in the rows of the hits that report it" if partial else "")))
             continue
-        pairs = [(float(r["scores"][n]), vals[r["_row"]]) for r in exp if "_row" in r and float(r["scores"][n]) != 0]
+        pairs = [(float(r["scores"][n]), vals[r["_row"]]) for r in exp
+                 if "_row" in r and n in r["scores"] and float(r["scores"][n]) != 0]
         pairs.sort()
         for (a0, b0), (a1, b1) in zip(pairs, pairs[1:]):
             if (a0 < a1 and b0 > b1) or (a0 == a1 and b0 != b1):
@@ -380,16 +445,21 @@ def _payload(gen, seed, i, spec):
 # ----------------------------------------------------------------------------------------------- checks
 def check_hits(tier, seed):
     n = 350 if tier == "quick" else 6000
+    n_multi = 120 if tier == "quick" else 2000
     ck = Check("pepxml_hits", "mokapot.parsers.pepxml.read_pepxml",
                "exhaustive: 1-hit documents, all 14 target/decoy patterns over primary + 0..2 alternative proteins x "
                "all 15 sets of 0..3 modified positions of a 4-residue peptide (210 documents), all 66 pairs and 54 "
                "triples (first in {1,2,9}, last >= 10) of modified positions of a 12-residue peptide; random: %d "
                "documents with seed %d: 1..2 files x 1..2 runs x 1..3 spectra x 1..3 hits, peptides of 3..25 "
                "residues, 0..4 modifications at ascending positions, 0..2 alternative proteins, 0..4 search scores of 7 value kinds, "
-               "optional attributes/elements/namespace present or absent" % (n, seed),
+               "optional attributes/elements/namespace present or absent, the same score names in every file of a "
+               "document; random: %d multi-file inputs with seed %d: 2..3 files x 1..2 runs x 1..3 spectra x 1..3 hits "
+               "read in one call, every file with its own subset (0..5 names) of a pool of 1..5 search scores, at "
+               "least one score reported by only some of the files" % (n, seed, n_multi, seed),
                "spec -> PepXML text -> read_pepxml(to_df=True); oracle derived from the spec (rows matched to hits by "
-               "the unique calc mass); non-trivial = some hit has >= 2 modifications or an alternative protein, or the "
-               "document has several runs/files")
+               "the unique calc mass; a score must be a numeric column, finite and rank-preserving over the hits that "
+               "report it, nothing is demanded of it in the rows of the other hits); non-trivial = some hit has >= 2 "
+               "modifications or an alternative protein, or the document has several runs/files")
     with scratch("c20_") as d:
         for i, spec in enumerate(grid_specs()):
             ck.case(("grid", i, spec["files"][0][0]["spectra"][0]["hits"][0]), nontrivial=_nontrivial(spec))
@@ -400,6 +470,13 @@ def check_hits(tier, seed):
             ck.case(("random", seed, i), nontrivial=_nontrivial(spec))
             for case, what in check_doc(spec, d):
                 ck.violation(case, what, _payload("random", seed, i, spec))
+        for i in range(n_multi):
+            spec = multi_spec(seed, i)
+            sets = _file_score_sets(spec)
+            assert any(s != sets[0] for s in sets)
+            ck.case(("multi", seed, i), nontrivial=True)
+            for case, what in check_doc(spec, d):
+                ck.violation(case, what, _payload("multi", seed, i, spec))
     return ck
 
 
@@ -420,11 +497,41 @@ FOREIGN_XML = {
 }
 
 
-def _reject_case(kind, seed, i, d):
-    """returns the exception raised by read_pepxml on the input (None if it was accepted)"""
+POSITIONS = ["first", "middle", "last"]
+
+
+def _reject_case(kind, seed, i, d, pos=None):
+    """returns the exception raised by read_pepxml on the input (None if it was accepted).
+    pos in POSITIONS: a LIST of files is read in one call; the offending file (Percolator product / non-PepXML text)
+    stands at that position among ordinary PepXML files (whose score sets may differ from each other's and from the
+    Percolator file's)."""
     from mokapot.parsers.pepxml import read_pepxml
     files = []
-    if kind == "percolator":
+    if pos is not None and kind == "percolator":
+        spec = multi_spec(seed, i, percolator_at=pos)
+        for k in range(len(spec["files"])):
+            p = d / ("rej_%d.pep.xml" % k)
+            p.write_text(render(spec, k))
+            files.append(str(p))
+    elif pos is not None:
+        spec = multi_spec(seed, i)
+        goods = [render(spec, k) for k in range(2)]
+        if kind in FOREIGN_XML:
+            text = FOREIGN_XML[kind]
+        elif kind == "truncated-xml":
+            text = goods[0][: len(goods[0]) // 2]
+        elif kind == "garbage-after-root":
+            text = goods[0] + "this is not xml <<<\n"
+        else:
+            text = REJECT_TEXTS[kind]
+        for k, g in enumerate(goods):
+            p = d / ("good_%d.pep.xml" % k)
+            p.write_text(g)
+            files.append(str(p))
+        p = d / ("rej_0.xml" if kind in FOREIGN_XML else "rej_0.txt")
+        p.write_text(text)
+        files.insert({"first": 0, "middle": 1, "last": 2}[pos], str(p))
+    elif kind == "percolator":
         spec = random_spec(seed, i, percolator=True)
         for k in range(len(spec["files"])):
             p = d / ("rej_%d.pep.xml" % k)
@@ -456,16 +563,40 @@ def _reject_case(kind, seed, i, d):
 
 def check_rejects(tier, seed):
     n = 40 if tier == "quick" else 400
+    n_list = 12 if tier == "quick" else 120
     kinds = list(REJECT_TEXTS) + list(FOREIGN_XML)
     ck = Check("pepxml_rejects", "mokapot.parsers.pepxml.read_pepxml",
                "random: %d generated documents (seed %d) carrying one of the 3 Percolator score names among their search "
                "scores; %d non-PepXML inputs (tab-delimited text, PIN, JSON, empty file, truncated document, document "
                "followed by garbage: ValueError required; well-formed XML of another kind - html, mzML, a pipeline "
-               "analysis without runs: any exception accepted) x 3 variants (alone, alone, after a good file)"
-               % (n, seed, len(kinds)),
+               "analysis without runs: any exception accepted) x 3 variants (alone, alone, after a good file); file "
+               "lists read in one call: 3 positions (first, middle, last) x %d random lists (seed %d) of 2..3 files "
+               "(3 for middle) in which only the file at that position carries 1..3 of the Percolator score names and "
+               "the other files are ordinary PepXML with their own subsets of 1..5 search scores; the %d non-PepXML "
+               "inputs x 3 positions (first, middle, last) among 2 ordinary PepXML files with differing score sets"
+               % (n, seed, len(kinds), n_list, seed, len(kinds)),
                "the input must be rejected with an error; non-trivial = every case (each input must be detected by the "
                "parser)")
     with scratch("c20r_") as d:
+        for pos in POSITIONS:
+            for i in range(n_list):
+                ck.case(("percolator", pos, seed, i))
+                e = _reject_case("percolator", seed, i, d, pos)
+                if not isinstance(e, ValueError):
+                    ck.violation("percolator-file-%s-in-list-%s" % (pos, "accepted" if e is None
+                                                                    else "wrong-error:" + type(e).__name__),
+                                 "Percolator-produced PepXML %s in a list of otherwise ordinary files: %s"
+                                 % (pos, "accepted" if e is None else repr(e)[:150]),
+                                 {"kind": "percolator", "seed": seed, "i": i, "pos": pos})
+            for kind in kinds:
+                ck.case((kind, pos, seed, 0))
+                e = _reject_case(kind, seed, 0, d, pos)
+                if not isinstance(e, _need(kind)):
+                    ck.violation("nonpepxml-%s-%s-in-list-%s" % (kind, pos, "accepted" if e is None
+                                                                 else "wrong-error:" + type(e).__name__),
+                                 "non-PepXML input (%s) %s in a list of PepXML files: %s"
+                                 % (kind, pos, "accepted" if e is None else repr(e)[:150]),
+                                 {"kind": kind, "seed": seed, "i": 0, "pos": pos})
         for i in range(n):
             ck.case(("percolator", seed, i))
             e = _reject_case("percolator", seed, i, d)
@@ -495,11 +626,13 @@ def REPLAY(check_name, violation):
         inp = json.loads(inp)
     with scratch("c20p_") as d:
         if check_name == "pepxml_rejects":
-            e = _reject_case(inp["kind"], inp["seed"], inp["i"], d)
+            e = _reject_case(inp["kind"], inp["seed"], inp["i"], d, inp.get("pos"))
             return {"violated": not isinstance(e, _need(inp["kind"])), "detail": repr(e)}
         spec = inp.get("spec")
         if spec is None:
-            spec = list(grid_specs())[inp["i"]] if inp["gen"] == "grid" else random_spec(inp["seed"], inp["i"])
+            spec = (list(grid_specs())[inp["i"]] if inp["gen"] == "grid"
+                    else multi_spec(inp["seed"], inp["i"]) if inp["gen"] == "multi"
+                    else random_spec(inp["seed"], inp["i"]))
         bad = check_doc(spec, d)
         return {"violated": bool(bad), "detail": bad[:5]}
 
@@ -508,7 +641,10 @@ if __name__ == "__main__":
     a = args()
     emit([check_hits(a.tier, a.seed), check_rejects(a.tier, a.seed)],
          ["start_scan == end_scan in every generated spectrum_query (the parser reads end_scan)",
-          "search-score names and optional hit attributes are uniform within one read_pepxml call (one search engine)",
+          "search-score names are uniform within one file (they may differ between the files of one read_pepxml "
+          "call); optional hit attributes are uniform within one read_pepxml call",
+          "a search score that only some files report: nothing is demanded of its value in the rows of hits that do "
+          "not report it (the statement is silent; the parser leaves it missing)",
           "feature post-processing is only checked where the statement speaks: score columns numeric, finite and "
           "rank-preserving w.r.t. the hit's raw value; charge one-hot consistent with assumed_charge",
           "well-formed XML that is not PepXML is rejected with KeyError('ms_data_file') rather than ValueError; the "
